@@ -90,7 +90,7 @@ CHECKS = {
         "text": "c09_stream_step / c09_stream_end: one round of the stream loop is exactly 'command where the previous message ended, then response under that command's "
                 "code and the encrypt flag of its sessions', boundaries taken from the messages themselves, clean end only at a boundary; decodeStream_acct: byte accounting "
                 "of whole streams. Equality with per-message decodes (incl. first failing message) and 'one object per message, in order' are monitored over generated streams "
-                "of 1..n pairs covering all command codes with sessions/encryption/failed responses, and tied by correspondence. Session 3: the pairing is also a theorem for ARBITRARY messages in either mode (C09.c09_stream_of_arbitrary_messages, from the shift equation of TpmProofs/Shift.lean: a command / response decodes the same wherever in the input it starts and whatever follows it): whenever every message's own decode completes and consumes exactly its bytes, the stream decode is the chain of those decodes.",
+                "of 1..n pairs covering all command codes with sessions/encryption/failed responses, and tied by correspondence. Session 3: the pairing is also a theorem for ARBITRARY messages in either mode (C09.c09_stream_of_arbitrary_messages, from the shift equation of TpmProofs/Shift.lean: a command / response decodes the same wherever in the input it starts and whatever follows it): whenever every message's own decode completes and consumes exactly its bytes, the stream decode is the chain of those decodes. And hypothesis-free (C09.c09_every_stream): for EVERY input, either mode, whatever the outcome, the stream decode equals the iteration of the messages' own decodes from fresh states on the remaining input (same outcome, position, events).",
         "technique": "Lean 4 proofs (loop step/termination) + stream-vs-messages differential monitor",
         "design_ref": "DESIGN.md §8 C09",
     },
